@@ -122,7 +122,7 @@ func runTLSHello(c *sim.Ctl) {
 	for i := 0; i < n; i++ {
 		hc := &hconn{id: i, kind: "tls", ua: helloUAs[st.Draw(len(helloUAs))]}
 		if i > 0 {
-			if st.Draw(4) == 0 && len(pristine) > 50 {
+			if st.Draw(3) == 0 && len(pristine) > 50 {
 				hc.kind = "raw"
 				hc.raw = mutateHello(pristine, st)
 			}
@@ -213,16 +213,58 @@ func captureHello(cfg *tls.Config) []byte {
 	return s.got
 }
 
+// helloExts locates the extensions of a ClientHello record: it returns the
+// offset of the 2-byte extensions-length field and, per extension, the offset
+// of its 4-byte header. ok=false if the hello does not parse.
+func helloExts(h []byte) (extLenOff int, exts []int, ok bool) {
+	p := 5 + 4 + 2 + 32 // record header, handshake header, version, random
+	if len(h) < p+1 {
+		return
+	}
+	p += 1 + int(h[p]) // session id
+	if len(h) < p+2 {
+		return
+	}
+	p += 2 + int(h[p])<<8 + int(h[p+1]) // cipher suites
+	if len(h) < p+1 {
+		return
+	}
+	p += 1 + int(h[p]) // compression methods
+	if len(h) < p+2 {
+		return
+	}
+	extLenOff = p
+	p += 2
+	for p+4 <= len(h) {
+		exts = append(exts, p)
+		p += 4 + int(h[p+2])<<8 + int(h[p+3])
+	}
+	return extLenOff, exts, p == len(h) && len(exts) > 0
+}
+
+func add16(b []byte, off, delta int) {
+	v := int(b[off])<<8 + int(b[off+1]) + delta
+	if v < 0 {
+		v = 0
+	}
+	b[off], b[off+1] = byte(v>>8), byte(v)
+}
+
 // mutateHello produces a structure-aware hostile variant of a ClientHello record.
 func mutateHello(h []byte, st *sim.Stream) []byte {
 	b := append([]byte(nil), h...)
-	switch st.Draw(7) {
+	extLenOff, exts, ok := helloExts(b)
+	kind := st.Draw(13)
+	if !ok && kind >= 7 {
+		kind = st.Draw(7)
+	}
+	switch kind {
 	case 0: // flip a byte in the body, record length intact
 		i := 5 + st.Draw(len(b)-5)
 		b[i] ^= byte(1 + st.Draw(255))
 	case 1: // session id length
 		b[5+38] = byte(st.Draw(256))
-	case 2: // cipher suite / extension lengths: overwrite two bytes somewhere with 0xff
+	case 2: // overwrite two bytes somewhere with 0xff
 		i := 5 + 39 + st.Draw(len(b)-5-41)
 		b[i], b[i+1] = 0xff, 0xff
 	case 3: // truncate the body but keep the record header consistent
@@ -233,10 +275,33 @@ func mutateHello(h []byte, st *sim.Stream) []byte {
 		b[3], b[4] = 0x00, byte(10+st.Draw(60))
 	case 5: // handshake length field lies
 		b[6], b[7], b[8] = 0, byte(st.Draw(256)), byte(st.Draw(256))
-	default: // many random flips
+	case 6: // many random flips
 		for k := 0; k < 8; k++ {
 			b[5+st.Draw(len(b)-5)] = byte(st.Draw(256))
 		}
+	case 7: // the LAST extension overstates / understates its length by a few bytes
+		add16(b, exts[len(exts)-1]+2, []int{1, 2, 3, 4, 5, -1, 100}[st.Draw(7)])
+	case 8: // some extension lies about its length
+		add16(b, exts[st.Draw(len(exts))]+2, []int{1, 2, 4, -1, -2, 7, 300}[st.Draw(7)])
+	case 9: // the extensions block length lies
+		add16(b, extLenOff, []int{1, 2, 4, -1, -4, 9}[st.Draw(6)])
+	case 10: // the inner list length of an extension (SNI, groups, sig algs, ALPN ...) lies
+		e := exts[st.Draw(len(exts))]
+		if int(b[e+2])<<8+int(b[e+3]) >= 2 {
+			add16(b, e+4, []int{1, 2, 3, -1, 50}[st.Draw(5)])
+		}
+	case 11: // drop the tail of the last extension but keep every length field
+		cut := 1 + st.Draw(4)
+		if len(b) > 60+cut {
+			b = b[:len(b)-cut]
+			b[3], b[4] = byte((len(b)-5)>>8), byte(len(b)-5)
+			add16(b, 7, -cut)
+			add16(b, extLenOff, 0)
+		}
+	default: // cipher suite list length odd / huge
+		p := 5 + 4 + 2 + 32
+		p += 1 + int(b[p])
+		add16(b, p, []int{1, -1, 3, 1000}[st.Draw(4)])
 	}
 	return b
 }
